@@ -127,9 +127,34 @@ def continued(kind, seed=0):
     return out
 
 
+def callers_list(seed=0):
+    """The caller's own list of callbacks is neither kept nor changed by fit: time=True does not leave a Timer in it, and a
+    callback that edits the list during the run changes nothing about who receives this run's events."""
+    from qucumber.callbacks import LambdaCallback
+    rng = np.random.default_rng(seed)
+    torch.manual_seed(seed)
+    st = C.make_state("positive", 2, 2)
+    data = torch.tensor(rng.integers(0, 2, size=(4, 2)), dtype=torch.double)
+    rec = Recorder()
+    logger = make_cb(rec)
+    mine = []
+    editor = LambdaCallback(on_epoch_start=lambda s, e: (mine.remove(logger) if logger in mine else None))
+    mine.extend([editor, logger])
+    st.fit(data, epochs=2, pos_batch_size=2, k=1, lr=0.01, time=True, callbacks=mine)
+    out = []
+    if any(type(c).__name__ == "Timer" for c in mine):
+        out.append("fit(time=True) left its Timer in the caller's list of callbacks")
+    out += check_trace(rec.ev, 1, 2, 4, 2, None)
+    return out
+
+
 def native_check(quick=True):
     fails = []
     n = 0
+    f = callers_list()
+    n += 1
+    if f:
+        fails.append(({"caller's callback list edited during the run, time=True": True}, f[:2]))
     for kind in ("positive", "complex"):
         f = continued(kind)
         n += 1
